@@ -85,8 +85,9 @@ NextFill ==
 NextMemccpy ==
   /\ st.f = "memccpy_s"
   /\ \E dmax \in Sizes, s \in 0..N, n \in Sizes \cup {K + 1}, v \in {0, 98, 203}, sl \in 0..K, sterm \in BOOLEAN :
+     \E dbos \in BosChoices(dmax) :
        LET a == IF s # NULLP /\ s + sl <= N + (IF sterm THEN 0 ELSE 1) THEN Place(Blank, s, SrcStr(sl), sterm) ELSE Blank
-           c == Case(st.f, st.d, dmax, s, 0, v, n, UNK, UNK, 0, a)
+           c == Case(st.f, st.d, dmax, s, 0, v, n, dbos, UNK, 0, a)
        IN /\ (s # NULLP => s + sl <= N + (IF sterm THEN 0 ELSE 1))
           /\ Truthful(c) /\ st' = c
 
